@@ -89,7 +89,7 @@ func (ru c54rule) enc() string {
 	return ""
 }
 
-var c54flushSizes = []int{64, 65, 100, 512, 4095, 4096}
+var c54flushSizes = []int{64, 65, 100, 512, 1024, 4095, 4096}
 
 func c54allRules() []c54rule {
 	var out []c54rule
@@ -468,6 +468,8 @@ func c54caseID(family string, reqs []*c54req) string {
 
 // ------------------------------------------------------------------------------ bodies
 
+var c54compressed []byte
+
 func c54body(kind byte, n int) []byte {
 	b := make([]byte, n)
 	switch kind {
@@ -477,6 +479,26 @@ func c54body(kind byte, n int) []byte {
 		for i := range b {
 			b[i] = s[i%len(s)]
 		}
+	case 'c': // already compressed: the gzip stream of a long non-repetitive text
+		if c54compressed == nil {
+			var raw bytes.Buffer
+			x := uint64(0x2545F4914F6CDD1D)
+			for raw.Len() < 96*1024 {
+				x ^= x << 13
+				x ^= x >> 7
+				x ^= x << 17
+				fmt.Fprintf(&raw, "%x-%d ", x&0xfffff, x>>50)
+			}
+			var zb bytes.Buffer
+			zw, _ := gzip.NewWriterLevel(&zb, gzip.BestCompression)
+			zw.Write(raw.Bytes())
+			zw.Close()
+			c54compressed = zb.Bytes()
+		}
+		if n > len(c54compressed) {
+			panic("c54 harness: compressed body pool too small")
+		}
+		copy(b, c54compressed[:n])
 	case 'r', 'g':
 		x := uint64(0x9E3779B97F4A7C15)
 		for i := range b {
@@ -1121,6 +1143,145 @@ func (h *c54h) frun(ru c54rule, depth int, pick func(n int) int, outcome func(st
 	return hist, vs, false
 }
 
+// ------------------------------------------------------------------------------ family R: the body reader contract
+
+// res.Body is an io.Reader for whoever consumes the response after the module: bfe's copy loops
+// (32 KiB), modules later in the same callback list (mod_markdown: ioutil.ReadAll), protocol
+// writers. Family R plays consumers with enumerated read-size patterns on the filter the real
+// module installed (same seam as family F) and judges what such a consumer receives.
+type c54pattern struct {
+	name  string
+	class string       // signature class
+	size  func(i int) int // len(p) of the i-th Read; nil = io.ReadAll
+}
+
+var c54patterns = []c54pattern{
+	{"1", "small-reads", func(i int) int { return 1 }},
+	{"7", "small-reads", func(i int) int { return 7 }},
+	{"100", "small-reads", func(i int) int { return 100 }},
+	{"512", "medium-reads", func(i int) int { return 512 }},
+	{"4096", "medium-reads", func(i int) int { return 4096 }},
+	{"32768", "large-reads", func(i int) int { return 32768 }},
+	{"readall", "readall", nil},
+	{"alt1-4096", "alternating-reads", func(i int) int { return []int{1, 4096}[i%2] }},
+	{"alt32768-7", "alternating-reads", func(i int) int { return []int{32768, 7}[i%2] }},
+	{"grow", "growing-reads", func(i int) int {
+		if i > 15 {
+			i = 15
+		}
+		return 1 << uint(i)
+	}},
+	{"shrink", "shrinking-reads", func(i int) int {
+		if i > 12 {
+			return 1
+		}
+		return 4096 >> uint(i)
+	}},
+}
+
+// c54contractReader checks the per-call part of the io.Reader contract while a consumer reads.
+type c54contractReader struct {
+	r      io.Reader
+	calls  int
+	bad    []string
+	sawErr error
+}
+
+func (c *c54contractReader) Read(p []byte) (int, error) {
+	n, err := c.r.Read(p)
+	c.calls++
+	switch {
+	case n < 0 || n > len(p):
+		c.bad = append(c.bad, fmt.Sprintf("n-out-of-range: Read(len %d) returned n=%d", len(p), n))
+		if n > len(p) {
+			n = len(p)
+		}
+		if n < 0 {
+			n = 0
+		}
+	case err != nil && err != io.EOF && n > 0:
+		c.bad = append(c.bad, fmt.Sprintf("data-with-error: Read returned %d bytes together with %v", n, err))
+	case c.sawErr != nil && n > 0:
+		c.bad = append(c.bad, fmt.Sprintf("data-after-error: Read returned %d bytes after %v", n, c.sawErr))
+	}
+	if err != nil && c.sawErr == nil {
+		c.sawErr = err
+	}
+	return n, err
+}
+
+func (h *c54h) rrun(ru c54rule, kind byte, body []byte, pt c54pattern, outcome func(string)) (vs []c54verdict) {
+	x := &c54fresp{body: body}
+	h.fstart(x, ru)
+	cr := &c54contractReader{r: x.res.Body}
+	var out []byte
+	var rerr error
+	if pt.size == nil {
+		out, rerr = io.ReadAll(cr)
+	} else {
+		big := make([]byte, 32768)
+		for i := 0; ; i++ {
+			if i > 4*len(body)+4096 {
+				rerr = errors.New("c54: consumer gave up, no io.EOF after too many reads")
+				break
+			}
+			n, err := cr.Read(big[:pt.size(i)])
+			out = append(out, big[:n]...)
+			if err == io.EOF {
+				break
+			}
+			if err != nil {
+				rerr = err
+				break
+			}
+		}
+	}
+	x.res.Body.Close()
+	bodyClass := "compressible"
+	switch {
+	case len(body) == 0:
+		bodyClass = "empty"
+	case kind == 'r' || kind == 'c':
+		bodyClass = "incompressible"
+	}
+	in := fmt.Sprintf("%s:%s:%s", x.enc, pt.class, bodyClass)
+	for _, b := range cr.bad {
+		vs = append(vs, c54verdict{sig: fmt.Sprintf("reader:%s:%s", in, strings.SplitN(b, ":", 2)[0]), detail: b})
+	}
+	if ce := x.res.Header["Content-Encoding"]; len(ce) != 1 || ce[0] != x.enc {
+		vs = append(vs, c54verdict{sig: fmt.Sprintf("announce:%s:content-encoding-differs", in), detail: fmt.Sprintf("Content-Encoding %q", ce)})
+	}
+	if cl := x.res.Header["Content-Length"]; len(cl) != 0 {
+		vs = append(vs, c54verdict{sig: fmt.Sprintf("length:%s:content-length-kept", in), detail: fmt.Sprintf("Content-Length %q handed on with a compressed body", cl)})
+	}
+	if rerr != nil {
+		vs = append(vs, c54verdict{sig: fmt.Sprintf("body:%s:read-error", in), detail: fmt.Sprintf("consumer got %v after %d bytes in %d reads although the backend stream is intact", rerr, len(out), cr.calls)})
+		return vs
+	}
+	var plain []byte
+	var derr error
+	if x.enc == "gzip" {
+		plain, derr = c54gunzip(out)
+	} else {
+		plain, derr = c54unbrotli(out)
+	}
+	switch {
+	case derr != nil:
+		vs = append(vs, c54verdict{
+			sig:    fmt.Sprintf("body:%s:does-not-decompress", in),
+			detail: fmt.Sprintf("io.EOF after %d compressed bytes in %d reads, but: %v; %d of %d plain bytes recovered (prefix equal: %v)", len(out), cr.calls, derr, len(plain), len(body), bytes.HasPrefix(body, plain)),
+		})
+	case !bytes.Equal(plain, body):
+		vs = append(vs, c54verdict{
+			sig:    fmt.Sprintf("body:%s:decompressed-differs", in),
+			detail: fmt.Sprintf("io.EOF after %d compressed bytes in %d reads; decompressed %d bytes, backend body %d bytes (prefix equal: %v)", len(out), cr.calls, len(plain), len(body), bytes.HasPrefix(body, plain)),
+		})
+	default:
+		outcome(fmt.Sprintf("R:ok:%s:%s", x.enc, pt.class))
+	}
+	return vs
+}
+
 // ------------------------------------------------------------------------------ enumeration
 
 var c54aeAlphabet = [][]string{
@@ -1611,6 +1772,82 @@ func TestVerifC54(t *testing.T) {
 		}, func() bool { return stop || r.Expired("enumeration (family F)") })
 	}
 
+	// ---- family R: consumer read patterns x body kinds x sizes around the flush size x flush
+	//      size x coding/level, on the filter installed by the real module.
+	{
+		rRules := []c54rule{{"GZIP", 1, 0}, {"BROTLI", 1, 0}, {"GZIP", 6, 0}, {"BROTLI", 5, 0}}
+		if thorough {
+			rRules = append(rRules, c54rule{"GZIP", -2, 0}, c54rule{"GZIP", 0, 0}, c54rule{"GZIP", 9, 0}, c54rule{"BROTLI", 0, 0}, c54rule{"BROTLI", 9, 0}, c54rule{"BROTLI", 11, 0})
+		}
+		for _, f := range []int{64, 512, 1024, 4096} {
+			sizes := []int{0, 1, 3, f - 1, f, f + 1, 2 * f, 2*f + 1, 5 * f, 5*f + 3}
+			if thorough {
+				sizes = append(sizes, 2*f-1, 3*f, 9*f+1)
+			}
+			for ri, ru0 := range rRules {
+				ru := ru0
+				ru.f = f
+				for _, n := range sizes {
+					for _, kind := range []byte{'t', 'z', 'r', 'c'} {
+						if n <= 3 && kind != 't' && kind != 'r' {
+							continue
+						}
+						if !thorough && ri >= 2 && (kind == 'z' || (kind == 't' && n > 2*f+1)) {
+							continue
+						}
+						heavy := ru.cmd == "BROTLI" && ru.q >= 9
+						if heavy && (kind == 'z' || kind == 't') && n != 5*f {
+							continue
+						}
+						body := c54body(kind, n)
+						for _, pt := range c54patterns {
+							if pt.size != nil && pt.size(0) == 1 && pt.size(1) == 1 && n > 2*f+1 && f >= 1024 {
+								continue // one-byte reads of tens of KB: covered at the smaller flush sizes
+							}
+							if heavy && pt.class != "readall" && pt.class != "small-reads" && pt.class != "large-reads" {
+								continue
+							}
+							idx++
+							famE["R"]++
+							if stop || !r.Mine(idx) || (only != "" && only != "R") {
+								continue
+							}
+							id := fmt.Sprintf("R{r=%s body=%c%d reads=%s}", ru.name(), kind, n, pt.name)
+							if !r.Case(id) {
+								continue
+							}
+							t0 := time.Now()
+							var vs []c54verdict
+							pan, val := vk.Guard(func() { vs = h.rrun(ru, kind, body, pt, r.Outcome) })
+							famN["R"]++
+							famT["R"] += time.Since(t0)
+							if pan {
+								if strings.Contains(val, "c54 harness:") {
+									panic(val)
+								}
+								r.Outcome("R:panic")
+								nPanics++
+								r.Sample(map[string]string{"panic": val, "case": id})
+								vs = append(vs, c54verdict{sig: "reader:" + ru.enc() + ":panic-in-filter:" + vk.PanicSite(val), detail: val})
+							}
+							r.Nontrivial(id)
+							if nSamples["R"] < 1 && r.Mine(0) {
+								nSamples["R"]++
+								r.Sample(map[string]interface{}{"case": id, "violations": len(vs)})
+							}
+							for _, v := range vs {
+								r.Violation(v.sig, id, v.detail)
+							}
+							if famN["R"]%64 == 0 && r.Expired("enumeration (family R)") {
+								stop = true
+							}
+						}
+					}
+				}
+			}
+		}
+	}
+
 	// ---- family B: body length x content x backend chunking x level x flush size.
 	//      (brotli levels >= 6 allocate tens of MB per response: they get the reduced grid
 	//      "text body, whole/flush-sized reads" outside the thorough tier's main flush sizes.)
@@ -1618,6 +1855,9 @@ func TestVerifC54(t *testing.T) {
 	framings := []string{"cl", "chunked", "close", "h10"}
 	for _, ru := range c54allRules() {
 		f := ru.f
+		if f == 1024 {
+			continue // flush size 1024 belongs to family R
+		}
 		lv := (ru.cmd == "GZIP" && (ru.q == -1 || ru.q == 0)) || (ru.cmd == "BROTLI" && (ru.q == 0 || ru.q == 5))
 		lv2 := lv || (ru.cmd == "GZIP" && (ru.q == -2 || ru.q == 9)) || (ru.cmd == "BROTLI" && ru.q == 11)
 		heavy := ru.cmd == "BROTLI" && ru.q >= 6
